@@ -305,6 +305,51 @@ def r6(ctx):
         ctx.bad('Meta.__setitem__', 'no-keyerror', 'invalid keys do not raise KeyError', f.loc() if f else ci.path)
 
 
+def r6b(ctx):
+    """multi-key inserts are all-or-nothing: a rejected update leaves the object as it was."""
+    m = ctx.model
+    ci = m.cls('Meta')
+    for name in ('update', '__ior__', 'setdefault'):
+        f = ci.methods.get(name)
+        if f is None:
+            continue
+        fn = f.node
+        loops = [st for st in stmts_of(fn) if isinstance(st, ast.For)]
+
+        def inserts(loop):
+            for n in ast.walk(loop):
+                if isinstance(n, ast.Assign) and isinstance(n.targets[0], ast.Subscript) and norm(n.targets[0].value) == 'self':
+                    return True
+                if isinstance(n, ast.Call) and norm(n.func) in ('self.__setitem__',):
+                    return True
+            return False
+
+        def validates(loop):
+            ok = False
+            for n in ast.walk(loop):
+                if isinstance(n, ast.If) and 'not in self.valid_keys' in norm(n.test) and any(
+                        isinstance(x, ast.Raise) and 'KeyError' in norm(x) for x in n.body):
+                    ok = True
+            return ok and not inserts(loop)
+        ins = [l for l in loops if inserts(l)]
+        if not ins:
+            delegating = any(norm(c.func) == 'self.update' for c in calls_in(fn))
+            ctx.ok(f'Meta.{name}', 'delegates to update()' if delegating else 'inserts at most one key')
+            continue
+        bad = []
+        for l in ins:
+            pre = [v for v in loops if validates(v) and norm(v.iter) == norm(l.iter) and v.lineno < l.lineno]
+            if not pre:
+                bad.append(l)
+        if bad:
+            ctx.bad(f'Meta.{name}', 'partial-update',
+                    f'`{norm(bad[0]).splitlines()[0]}` inserts key by key through the whitelist: when a later key is rejected '
+                    '(KeyError) the earlier keys have already been stored, so a rejected operation does not leave the object '
+                    'as it was (validate every key before the first insertion)', f.loc(bad[0]))
+        else:
+            ctx.ok(f'Meta.{name}', 'every key is validated before the first insertion')
+
+
 ADDERS = ('__init__', 'append', 'extend', 'insert', '__setitem__', '__iadd__')
 
 
@@ -398,6 +443,7 @@ RULES = [
     RuleDef('R4', 'validator rejection predicates = documented domains (NaN-aware truth tables)', r4, 10),
     RuleDef('R5', 'cross-field constraints guard assignment too', r5, 7),
     RuleDef('R6', 'metadata whitelist at every inserting entry point', r6, 6),
+    RuleDef('R6b', 'multi-key metadata inserts are all-or-nothing', r6b, 3),
     RuleDef('R7', 'region lists only accept regions', r7, 4),
     RuleDef('R8', 'bounding-box / mask constructor guards', r8, 3),
 ]
